@@ -30,6 +30,7 @@ def plan(tier, seed):
     arith += [{'kind': k, 'op': o, 'refl': r, 'rhs': h, 'shape': [2], 'int': True} for k in ('QU', 'IQUV') for o in ('add', 'sub', 'mul', 'truediv') for r in (False, True) for h in ('float', 'jnp0d', 'int')]
     arith += [{'seq': o, 'kind': k, 'int': i} for o in ('fwd', 'rev') for k in ('I', 'IQU') for i in (False, True)]
     unary = [{'kind': k, 'unary': u, 'shape': s} for k in KINDS for u in ('neg', 'abs', 'pos', 'idx_int', 'idx_slice', 'idx_arr', 'idx_mask', 'ravel', 'reshape', 'matmul', 'bad_operands', 'props') for s in ([2], [2, 3])]
+    unary += [{'kind': k, 'unary': u, 'shape': [3, 2, 4]} for k in KINDS for u in ('idx_int_slice_arr', 'idx_arr_slice_arr', 'idx_int_ell_arr', 'idx_newaxis_arr', 'idx_mixed_dtypes')]
     fact = [{'kind': k, 'factory': f, 'shape': s, 'dt': d} for k in KINDS for f in ('zeros', 'ones', 'full', 'normal', 'uniform', 'structure_for', 'from_iquv')
             for s in ([], [2], [2, 3]) for d in ('float32', 'float16', 'int32')]
     fs = [{'from_stokes': n, 'dts': list(d)} for n in range(0, 6) for d in itertools.product(('float32', 'float16'), repeat=min(n, 2))] + [{'from_stokes': 'kw'}]
@@ -205,6 +206,28 @@ def run(phase, cases, ctx):
                 elif u == 'idx_arr':
                     ia = np.array([1, 0, 1])
                     res, refs = x[jnp.asarray(ia)], {k: v[ia] for k, v in d.items()}
+                elif u in ('idx_int_slice_arr', 'idx_arr_slice_arr', 'idx_int_ell_arr', 'idx_newaxis_arr', 'idx_mixed_dtypes'):
+                    # several index items at once: an integer or an index array separated from another index array by a slice or
+                    # an ellipsis (NumPy then moves the broadcast dimension to the front), index arrays as long as the container
+                    # has components, and components of different dtypes
+                    for n_ia in (len(kind), 2, 5):
+                        ia = np.array([(3 * q + 1) % 4 for q in range(n_ia)])
+                        ib = np.array([(q + 2) % 3 for q in range(n_ia)])
+                        np_idx = {'idx_int_slice_arr': (1, slice(None), ia), 'idx_arr_slice_arr': (ib, slice(None), ia), 'idx_int_ell_arr': (2, Ellipsis, ia),
+                                  'idx_newaxis_arr': (None, ib, slice(None, None, -1), ia), 'idx_mixed_dtypes': (slice(None), 1, ia)}[u]
+                        j_idx = tuple(jnp.asarray(i) if isinstance(i, np.ndarray) else i for i in np_idx)
+                        xx, dd = x, d
+                        if u == 'idx_mixed_dtypes':
+                            dts_ = [np.float16, np.float32, np.int32, np.float32]
+                            dd = {k: (v * 4).astype(dts_[i]) for i, (k, v) in enumerate(d.items())}
+                            xx = mk(kind, dd)
+                        r_ = xx[j_idx]
+                        for k, v in dd.items():
+                            g = np.asarray(getattr(r_, k))
+                            if g.shape != v[np_idx].shape or g.dtype != v.dtype or not np.array_equal(g, v[np_idx]):
+                                bad(case, 'unary-value', f'{u} with index arrays of length {n_ia}: component {k} has shape {g.shape} dtype {g.dtype}, numpy indexing of that component gives shape {v[np_idx].shape} dtype {v.dtype}')
+                                break
+                    res, refs = x, d
                 elif u == 'idx_mask':
                     m = np.zeros(shape, bool)
                     m.ravel()[0] = True
@@ -441,6 +464,15 @@ def run(phase, cases, ctx):
                             for l, o in zip(jax.tree.leaves(r), leaves):
                                 if l.shape != o.shape or np.dtype(l.dtype) != cdt(o):
                                     bad(case, 'random_like', f'{l.shape} {l.dtype} vs {o.shape} {cdt(o)}')
+                    # bounds given as NumPy scalars, NumPy 0-d arrays and strongly typed JAX scalars: the template's dtypes stay
+                    for lo, hi in ((np.float32(2), np.float32(3)), (np.sqrt(4.0), np.float64(3)), (np.array(2.0, np.float32), np.array(3.0)), (jnp.asarray(2.0, jnp.float32), jnp.asarray(3.0, jnp.float32)), (2, 3)):
+                        for src in (x, ft.as_structure(x), jax.tree.map(lambda l: jnp.asarray(l, jnp.float16) if jnp.issubdtype(jnp.asarray(l).dtype, jnp.floating) else l, x)):
+                            r = ft.uniform_like(src, key, lo, hi)
+                            for l, o in zip(jax.tree.leaves(r), jax.tree.leaves(src)):
+                                if l.shape != o.shape or np.dtype(l.dtype) != cdt(o):
+                                    bad(case, 'random_like', f'uniform_like with bounds of type {type(lo).__name__}/{type(hi).__name__}: leaf {l.shape} {l.dtype} for template {o.shape} {np.dtype(o.dtype)}')
+                                elif not (np.all(np.asarray(l, np.float64) >= 2.0) and np.all(np.asarray(l, np.float64) <= 3.0)):
+                                    bad(case, 'random_like', f'uniform_like with bounds of type {type(lo).__name__}: values outside [2, 3]')
                     r = ft.uniform_like(x, key, 2.0, 3.0)
                     if not all(np.all(np.asarray(l) >= 2.0) and np.all(np.asarray(l) <= 3.0) for l in jax.tree.leaves(r)):
                         bad(case, 'random_like', 'uniform_like outside [low, high]')
